@@ -43,6 +43,11 @@ ROUTES = [
     [["push", ["url", "http://h/p#f%F0%9F%98"]]], [["push", ["url", "http://%80@h/"]]],
     [["push", ["url", "http://h/100%"]]], [["push", ["url", "http://h/41"]]],
     [["push", ["url", "http://h/?d=50%"]]], [["push", ["url", "http://h/?ab=1"]]],
+    # join() of pairs that are == but not identical ('' vs '/' under an authority), in both orders
+    [["push", ["url", "http://h.example"]], ["push", ["url", ""]], ["join"]], [["push", ["url", "http://h.example/"]], ["push", ["url", ""]], ["join"]],
+    [["push", ["url", "http://a/b"]], ["push", ["url", "https://cdn.example.org"]], ["join"]], [["push", ["url", "http://a/b"]], ["push", ["url", "https://cdn.example.org/"]], ["join"]],
+    [["push", ["url", "http://a/b"]], ["push", ["url", "//mirror.example/"]], ["join"]], [["push", ["url", "http://a/b"]], ["push", ["url", "//mirror.example"]], ["join"]],
+    [["push", ["url", "http://h.example/"]], ["push", ["url", "?q"]], ["join"]], [["push", ["url", "http://h.example"]], ["push", ["url", "?q"]], ["join"]],
     # the same raw path with and without an authority, in both orders
     [["push", ["url", "/d/./a/../i.html"]]], [["push", ["url", "http://h/d/./a/../i.html"]]], [["push", ["url", "x:/d/./a/../i.html"]]],
     [["push", ["url", "http://h/e/./a/../i.html"]]], [["push", ["url", "/e/./a/../i.html"]]],
@@ -61,6 +66,7 @@ def run(ctx):
     # lone surrogates differ between the backends' quoters in one documented class (F1b): not a history matter
     progs = [p for p in progs if "\\ud" not in repr(p)]
     suites.touch_invariance(ctx, "C08-used-intermediates", progs, 500 if ctx.quick else 8000)
+    suites.source_invariance(ctx, "C08-source-unchanged", [p for p in progs if "pickle" not in repr(p)], 600 if ctx.quick else 10000)
     chunk = 400
     chunks = [progs[i:i + chunk] for i in range(0, len(progs), chunk)]
     lines_cold = [core.call_line("history_run", c, 2, False) for c in chunks]
@@ -71,6 +77,7 @@ def run(ctx):
     model_c = core.run_sharded("model", ctx.overlay, [core.call_line("observe@c", 2, p) for p in progs]) if "c" in cold else None
     ctx.count("C08-history", len(progs) * 2 * len(cold), {repr(p) for p in progs},
               hist={"programs": len(progs), "chunks": len(chunks)})
+    fresh_budget = [12]
     for k in cold:
         mref = model if k == "py" else model_c
         args, desc, cargs, cdesc = [], [], [], []
@@ -86,8 +93,17 @@ def run(ctx):
                 args.append(" ".join([enc(rc[0][i]), enc(rw[0][i]), enc(rw[1][i])]))
                 desc.append(base + i)
                 if enc(rw[0][i]) != mref[base + i] and len(ctx.diffs) < 50:
-                    ctx.diffs.append({"kind": "correspondence-diff", "suite": "C08-history", "backend": k, "request_repr": core.shorten(c[i]),
-                                      "model_repr": core.shorten(core.safe_dec(mref[base + i])), "impl_repr": core.shorten(rw[0][i])})
+                    # the same call in a FRESH process: if that agrees with the (history-free) model, the outcome inside the
+                    # run depended on what preceded it - a violation with a concrete history, not a modelling difference
+                    fresh = core.run_all(ctx, [core.call_line("observe", 2, c[i])], kinds=(k,))[k][0] if fresh_budget[0] > 0 else None
+                    fresh_budget[0] -= 1
+                    if fresh is not None and fresh == mref[base + i]:
+                        ctx.violation(kind="predicate-failure", suite="C08-history", backend=k,
+                                      predicate="the outcome of a call inside a run equals its outcome in a fresh process",
+                                      program=c[i], preceded_by=c[max(0, i - 12):i], impl=enc(rw[0][i])[:600], fresh=fresh[:600])
+                    else:
+                        ctx.diffs.append({"kind": "correspondence-diff", "suite": "C08-history", "backend": k, "request_repr": core.shorten(c[i]),
+                                          "model_repr": core.shorten(core.safe_dec(mref[base + i])), "impl_repr": core.shorten(rw[0][i])})
             for i in range(len(c) - 1):
                 cargs.append(" ".join(enc(x[i]) for x in (rc[2], rc[3], rc[4], rw[2], rw[3], rw[4])))
                 cdesc.append(base + i)
@@ -98,3 +114,20 @@ def run(ctx):
         ok = core.eval_pred(ctx, "c08_cmp_pred", cargs)
         core.record_failures(ctx, "C08-history-compare", "c08_cmp_pred", ok,
                              lambda m, k=k: {"backend": k, "programs": [progs[cdesc[m]], progs[cdesc[m] + 1]], "comparisons": cargs[m]})
+
+    # a model/implementation difference found inside a long-lived worker: repeat the same request in a FRESH process;
+    # if that agrees with the (history-free) model, the outcome depended on what the worker had done before - a violation
+    # with a concrete request, not a modelling difference
+    keep = []
+    for d in ctx.diffs:
+        if d.get("kind") == "correspondence-diff" and d.get("request") and d.get("model") and fresh_budget[0] > 0:
+            fresh_budget[0] -= 1
+            k = d["backend"]
+            fresh = core.run_all(ctx, [d["request"]], kinds=(k,))[k][0]
+            if fresh == d["model"]:
+                ctx.violation(kind="predicate-failure", suite=d.get("suite"), backend=k,
+                              predicate="the outcome of a call inside a long-lived process equals its outcome in a fresh process",
+                              request=d.get("request_repr"), impl=str(d.get("impl"))[:600], fresh=fresh[:600])
+                continue
+        keep.append(d)
+    ctx.diffs[:] = keep
